@@ -253,9 +253,9 @@ def remove_genes(
             # have body at all, which is why this isn't if body is None.
             if not hasattr(rxn.gpr, "body"):
                 rxn.gpr.body = None
-                rxn._genes = set()
-            else:
-                rxns_to_revisit.add(rxn)
+            # also needed for an emptied rule so that the remaining genes
+            # forget the reaction
+            rxns_to_revisit.add(rxn)
             if context:
                 context(partial(setattr, rxn, "gpr", old_gpr))
                 context(partial(rxn.update_genes_from_gpr))
